@@ -47,6 +47,7 @@ def dispatch (line : String) : String :=
   | "handoff" :: args => Handoff.driver args
   | "ipp" :: args => Ipp.driver args
   | "seg" :: "http" :: args => Relay.segHttpDriver args
+  | "seg1" :: args => Relay.segOneDriver args
   | "dgram" :: args => Relay.dgramDriver args
   | "seg" :: args => Proto.driver args
   | "iso" :: args => Iso.driver args
